@@ -56,9 +56,10 @@ void generate(sim::Rng &r, uint64_t seed, const std::string &tier, sim::Plan &p)
   p.cfg["starve_max"] = nthr + 1;
   p.cfg["pct_horizon"] = 1200;
   int n = (int)r.range(1, thorough ? 60 : 24);
+  int ncuts = 0;
   for (int i = 0; i < n; ++i) {
     sim::Op op;
-    if (i > 2 && r.chance(80)) { op.kind = "cut"; long off = (long)r.below(10); op.a = {r.chance(500) ? -1 : r.range(0, 7), r.chance(500) ? -1 : r.range(0, 7), (long)r.below(2), off == 0 ? 1 : 0, off == 1 ? 1 : 0}; p.ops.push_back(op); continue; }   // [new recording-sink level, new file-sink level, via setLevel("", l) or setLevel(l)]
+    if (i > 2 && ncuts < 6 && r.chance(80)) { ++ncuts; op.kind = "cut"; long off = (long)r.below(10); op.a = {r.chance(500) ? -1 : r.range(0, 7), r.chance(500) ? -1 : r.range(0, 7), (long)r.below(2), off == 0 ? 1 : 0, off == 1 ? 1 : 0}; p.ops.push_back(op); continue; }   // [new recording-sink level, new file-sink level, via setLevel("", l) or setLevel(l)]
     op.kind = "rec";
     long len;
     unsigned x = (unsigned)r.below(100);
